@@ -295,6 +295,33 @@ fn explore(ctx: &mut Ctx) {
         }
     }
     ctx.exhaustive_part("one-byte partners: strings of <= 3-4 chars over {c, one partner per byte position, 'a'} for c in {é, 个, 😀} x every member as &str and char delimiter");
+    // &str delimiters of up to 3 chars over alphabets whose chars share their lead byte (a mismatch in the middle of a
+    // char next to a self-overlapping delimiter)
+    for alpha in [["é", "è", "a"], ["个", "丫", "ñ"], ["😀", "😁", "é"]] {
+        let strs = gen::strings(&alpha, ctx.by_tier(5, 6));
+        let delims = gen::strings(&alpha, 3);
+        for s in &strs {
+            for dl in &delims {
+                eval(ctx, Case { s: s.clone(), delim: dl.clone(), as_char: false, hist: None });
+            }
+        }
+        if ctx.too_many() {
+            return;
+        }
+    }
+    ctx.exhaustive_part("all strings of <= 5-6 chars x all &str delimiters of <= 3 chars over {é,è,a}, {个,丫,ñ}, {😀,😁,é} (chars sharing lead bytes)");
+    // long periodic delimiters: delimiter = U U c with U = a b^k; the text contains U U U c (the delimiter overlapping a
+    // long partial match of itself) between ordinary pieces
+    for k in (0..=70usize).chain([100, 127, 128, 129, 200]) {
+        let unit = format!("a{}", "b".repeat(k));
+        let delim = format!("{unit}{unit}c");
+        let text = format!("x{unit}{unit}{unit}cy{delim}{unit}z{delim}");
+        eval(ctx, Case { s: text.clone(), delim: delim.clone(), as_char: false, hist: None });
+        let delim2 = format!("{unit}ac");
+        let text2 = format!("{unit}{unit}ac-{unit}{delim2}");
+        eval(ctx, Case { s: text2, delim: delim2, as_char: false, hist: None });
+    }
+    ctx.exhaustive_part("long periodic delimiters (a b^k)^2 c and (a b^k) a c for k in 0..=70 and 5 larger values, in texts where the delimiter overlaps a long partial match of itself");
     // lead-byte sweep: empty delimiter (char by char), the char itself and an ASCII char as delimiter
     for s in gen::lead_byte_strings() {
         eval(ctx, Case { s: s.clone(), delim: String::new(), as_char: false, hist: None });
